@@ -42,7 +42,8 @@ def build_case(ck, rng, gs, schema, wschema, max_depth, p_bad, all_nonnull=False
         if not keep_rejected:
             return None
     variables = dg.variables()
-    op = next(d for d in doc.definitions if isinstance(d, A.OperationDefinitionNode))
+    op = next(d for d in doc.definitions if isinstance(d, A.OperationDefinitionNode)
+              and (dg.operation_name is None or d.name.value == dg.operation_name))
     root = "Mutation" if op.operation.value == "mutation" else "Query"
     dgen = G.DataGen(rng, gs, dg.used_fields, p_bad=p_bad, all_nonnull=all_nonnull)
     data = dgen.obj(root, max_depth + 1)
@@ -64,12 +65,14 @@ def build_case(ck, rng, gs, schema, wschema, max_depth, p_bad, all_nonnull=False
             ck.count("skipped_null_directive_condition")
             return None
     try:
-        wire = [1] + G.flatten(G.W(100, [], [wschema, G.enc_doc(doc), G.enc_vars(variables), G.enc_data(data)]))
+        wire = [1] + G.flatten(G.W(100, [], [wschema, G.enc_doc(doc, dg.operation_name), G.enc_vars(variables),
+                                             G.enc_data(data)]))
     except G.OutOfFragment as e:
         ck.count("skipped_out_of_fragment")
         ck.count("skipped:" + str(e))
         return None
     return {"text": text, "doc": doc, "variables": variables, "data": data, "wire": wire,
+            "operation_name": dg.operation_name,
             "features": sorted(dg.features), "injected": dgen.injected, "valid": not errs, "dg": dg}
 
 
@@ -92,12 +95,13 @@ def compare(impl, model):
 
 
 def strip(r):
-    return {k: v for k, v in r.items() if k not in ("messages", "raw", "fields")}
+    return {k: v for k, v in r.items() if k not in ("messages", "raw", "fields", "causes")}
 
 
 def replay_dict(sdl, case, impl, model, what):
     return {"relation": "execute_sync == Spec.execute (data incl. key order, error-path multiset, resolver calls)",
             "disagreement": what, "sdl": sdl, "document": case["text"], "variables": case["variables"],
+            "operation_name": case.get("operation_name"),
             "data": G.data_to_jsonable(case["data"]), "impl": repr(strip(impl))[:3000],
             "model": repr(model)[:3000], "messages": impl.get("messages")}
 
@@ -131,7 +135,7 @@ def run_schema(ck, m, rng, n_docs, max_depth, p_bad):
         rs = []
         for _ in range(2):
             try:
-                rs.append(G.run_impl(schema, c["doc"], c["data"], c["variables"]))
+                rs.append(G.run_impl(schema, c["doc"], c["data"], c["variables"], c["operation_name"]))
             except Exception as e:  # noqa: BLE001
                 rs.append({"kind": "raised", "messages": [repr(e)]})
         first.append(rs[0])
@@ -140,7 +144,7 @@ def run_schema(ck, m, rng, n_docs, max_depth, p_bad):
     later = []
     for c in cases:
         try:
-            later.append(G.run_impl(schema, c["doc"], c["data"], c["variables"]))
+            later.append(G.run_impl(schema, c["doc"], c["data"], c["variables"], c["operation_name"]))
         except Exception as e:  # noqa: BLE001
             later.append({"kind": "raised", "messages": [repr(e)]})
     outs = m.run_batch([c["wire"] for c in cases])
@@ -211,13 +215,13 @@ def run(tier):
     return ck.finish()
 
 
-def run_one(sdl, text, variables, data):
+def run_one(sdl, text, variables, data, operation_name=None):
     from graphql import build_schema, parse
     schema = build_schema(sdl)
     doc = parse(text)
-    wire = [1] + G.flatten(G.W(100, [], [G.enc_schema(schema), G.enc_doc(doc), G.enc_vars(variables),
+    wire = [1] + G.flatten(G.W(100, [], [G.enc_schema(schema), G.enc_doc(doc, operation_name), G.enc_vars(variables),
                                           G.enc_data(data)]))
-    impl = G.run_impl(schema, doc, data, variables)
+    impl = G.run_impl(schema, doc, data, variables, operation_name)
     model = G.dec_response(Model("exec").run_batch([wire])[0])
     return impl, model
 
@@ -225,7 +229,7 @@ def run_one(sdl, text, variables, data):
 def run_corpus_case(ck, m, c):
     try:
         data = G.data_from_jsonable(c["data"])
-        impl, model = run_one(c["sdl"], c["document"], c.get("variables") or {}, data)
+        impl, model = run_one(c["sdl"], c["document"], c.get("variables") or {}, data, c.get("operation_name"))
     except Exception as e:  # noqa: BLE001
         ck.count("corpus_case_unusable")
         return
@@ -242,7 +246,7 @@ def replay(path):
     c = json.loads(open(path).read())
     common.build("C02", models=("exec",))
     data = G.data_from_jsonable(c["data"])
-    impl, model = run_one(c["sdl"], c["document"], c.get("variables") or {}, data)
+    impl, model = run_one(c["sdl"], c["document"], c.get("variables") or {}, data, c.get("operation_name"))
     print("document:", c["document"])
     print("impl :", strip(impl))
     print("model:", model)
